@@ -83,7 +83,10 @@ def c20_cli(ctx, p):
     if 'removal-marker-target-config' in opts:
         ctx.cover('targets-from-file')
         cfgfile = p['files'][p['opts']['removal-marker-target-config'][0]]
-        targets += [list(l.encode()) for l in cfgfile.split('\n') if l != '' or False]
+        lines_ = cfgfile.split('\n')     # one name per line: BufRead::lines() - the piece behind the final line break is not a line, a CR before a line break is dropped
+        if lines_ and lines_[-1] == '':
+            lines_.pop()
+        targets += [list((l[:-1] if l.endswith('\r') else l).encode()) for l in lines_]
     if 'removal-marker-target-name' in opts:
         ctx.cover('targets-from-flags')
         targets += opts['removal-marker-target-name']
@@ -168,6 +171,9 @@ def c20_jobs(tier, seed):
     J('config file equals repeated flags (flags side)', opts=dict(base, **{'removal-marker-target-name': ['x', 'y']}))
     J('empty string as target name by flag', opts=dict(base, **{'removal-marker-target-name': ['', 'y']}), name1='')
     J('config file with final newline, marker with empty name', opts=dict(base, **{'removal-marker-target-config': ['t.cfg']}), files={'t.cfg': 'y\n'}, name1='')
+    J('config file with an empty line in the middle, marker with empty name', opts=dict(base, **{'removal-marker-target-config': ['t.cfg']}), files={'t.cfg': 'y\n\nz\n'}, name1='')
+    J('config file line with blanks around the name', opts=dict(base, **{'removal-marker-target-config': ['t.cfg']}), files={'t.cfg': ' y \n\tx\n'}, name1=' y ', name2='x')
+    J('config file line with blanks around the name, marker without them', opts=dict(base, **{'removal-marker-target-config': ['t.cfg']}), files={'t.cfg': ' y \n'}, name1='y')
     J('empty config file, marker with empty name', opts=dict(base, **{'removal-marker-target-config': ['t.cfg']}), files={'t.cfg': ''}, name1='')
     J('large multi-byte document from stdin', opts=dict(base, **{'removal-marker-target-name': ['x']}), big=1)
     J('large multi-byte document from a file', opts=dict(base, **{'removal-marker-target-name': ['x'], 'filename': ['in.txt']}), big=1)
@@ -190,6 +196,11 @@ def c20_jobs(tier, seed):
     if True:   # beyond 64 KiB, multi-byte delimiters and text (block-wise readers / decoders)
         J('spelling: 73 KB multi-byte document, delimiters 「 」, from a file', opts=dict(base, **{'delimiter-start': ['「'], 'delimiter-end': ['」'], 'removal-marker-target-name': ['x'], 'filename': ['in.txt']}), big=8)
         J('spelling: 73 KB multi-byte document, delimiters 「 」, from stdin', opts=dict(base, **{'delimiter-start': ['「'], 'delimiter-end': ['」'], 'removal-marker-target-name': ['x']}), big=8)
+    for ds_, de_, tl_, rm_ in (('→ ', ' ←', 'TL', 'Removal-Marker'), (' [', '] ', 'Until', 'FLAG')):   # blanks at the ends of delimiters, upper case in tag names
+        J(f'spelling: delimiters {ds_!r} {de_!r} names {tl_!r} {rm_!r} mode=clean',
+          opts=dict(base, **{'delimiter-start': [ds_], 'delimiter-end': [de_], 'time-limited-tag-name': [tl_], 'removal-marker-tag-name': [rm_], 'removal-marker-target-name': ['y']}))
+    for t in TIMES:   # the default offset (+00:00) at instants a few hours from a deadline
+        J(f'current={t} default offset', opts={'time-limited-current': [t], 'filename': ['in.txt']})
     for t in TIMES:
         for off in ('+00:00', '+09:00', '-0800'):
             J(f'current={t} offset={off}', opts={'time-limited-current': [t], 'time-limited-time-offset': [off], 'filename': ['in.txt']}, tz_list=tzs)
